@@ -14,7 +14,8 @@
 From Coq Require Import ZArith List Bool.
 From Tickit Require Import RectDefs WinRectSet WinDefs WinSpec WinHist
   WinExposeProofs WinLogDisjoint WinFlushProofs WinScreenInv WinPreserve WinTermResize WinHistory WinC01Extra
-  WinRectSetProofs WinScrollDesc WinScrollRegion WinScrollFold WinScrollSpec WinScrollOps WinScrollInv WinHistoryFull WinReDefs WinReProofs WinReFlags WinReEstablish WinReExample.
+  WinRectSetProofs WinScrollDesc WinScrollRegion WinScrollFold WinScrollSpec WinScrollOps WinScrollInv WinHistoryFull WinReDefs WinReProofs WinReFlags WinReEstablish WinReExample WinReForest.
+From Tickit Require WinInput WinInputProofs.
 Import ListNotations.
 Local Open Scope Z_scope.
 
@@ -218,18 +219,68 @@ Print Assumptions C01_reentrant_flags.
 
 (* and so does the screen invariant: after such a flush every screen cell shows the
    composition of the FINAL tree or lies in the damage the handlers registered (which the
-   next flush renders, by C01_flush) -- arbitrary calls, including show and hide of windows
-   the traversal has yet to visit *)
+   next flush renders, by C01_flush) -- arbitrary calls: show and hide of windows the
+   traversal has yet to visit, and CLOSE or DESTRUCTION (dropping the last references) of any
+   window: the handler's own, one above it whose child list is being walked, a sibling the
+   traversal has yet to visit or has visited.  [WinInputProofs.ids_unique st]: window ids
+   are unique over the tree AND the detached (closed) subtrees; it is returned, so the
+   theorem iterates, and it is an invariant of the history model when new windows get fresh
+   ids (C01_forest_unique_init, _step, _step_re, _run) *)
 Theorem C01_reentrant_flush : forall app progs racts st tm st' tm' lg,
-  ScreenInv app st tm -> ids_unique (r_tree st) ->
+  ScreenInv app st tm -> ids_unique (r_tree st) -> WinInputProofs.ids_unique st ->
   (forall id, progs id = [DPaint]) ->
   (forall id a, In a (racts id) ->
      match a with RShow w | RHide w => w <> t_id (r_tree st) | _ => True end) ->
   win_flush_re no_defects (re_handler no_defects (prog_handler app progs) racts) st tm = (st', tm', lg) ->
   r_fault st' = false ->
-  ScreenInv app st' tm' /\ ids_unique (r_tree st').
+  ScreenInv app st' tm' /\ ids_unique (r_tree st') /\ WinInputProofs.ids_unique st'.
 Proof. exact (@WinReEstablish.flush_re_establishes). Qed.
 Print Assumptions C01_reentrant_flush.
+
+(* uniqueness of window ids over the tree and the detached subtrees is an invariant of the
+   history model -- every operation of the alphabet, every defect configuration, handlers
+   re-entering with any calls -- as long as a new window's id is fresh for the whole forest
+   ([new_fresh]: for ONew, f_find st id = None; no condition on any other operation) *)
+Theorem C01_forest_unique_init : forall nl nc orc,
+  WinInputProofs.ids_unique (m_root (m_init nl nc orc)).
+Proof. exact forest_unique_init. Qed.
+Print Assumptions C01_forest_unique_init.
+
+Theorem C01_forest_unique_step : forall cfg progs o m,
+  WinInputProofs.ids_unique (m_root m) -> new_fresh o (m_root m) ->
+  WinInputProofs.ids_unique (m_root (step cfg progs o m)).
+Proof. exact forest_unique_step. Qed.
+Print Assumptions C01_forest_unique_step.
+
+Theorem C01_forest_unique_step_re : forall cfg progs racts o m,
+  WinInputProofs.ids_unique (m_root m) -> new_fresh o (m_root m) ->
+  WinInputProofs.ids_unique (m_root (step_re cfg progs racts o m)).
+Proof. exact forest_unique_step_re. Qed.
+Print Assumptions C01_forest_unique_step_re.
+
+Theorem C01_forest_unique_run : forall cfg progs ops nl nc orc,
+  run_fresh cfg progs ops (m_init nl nc orc) ->
+  WinInputProofs.ids_unique (m_root (run cfg progs ops (m_init nl nc orc))).
+Proof. exact forest_unique_history. Qed.
+Print Assumptions C01_forest_unique_run.
+
+(* a window closes itself in its own expose handler while its parent's child list is being
+   walked: the sibling behind it is still exposed in the same flush (log 1, 2, 0), the closed
+   window is gone from the tree, its area is pending damage, and the next flush settles it *)
+Example C01_reentrant_close_nonvacuous :
+  map t_id (t_kids (r_tree (m_root cl_m0))) = [1; 2] /\
+  map fst (m_xlog cl_m1) = [1; 2; 0] /\
+  map t_id (t_kids (r_tree (m_root cl_m1))) = [2] /\
+  map t_id (r_orphans (m_root cl_m1)) = [1] /\
+  r_damage (m_root cl_m1) = [mkRect 1 1 2 2] /\
+  r_nexp (m_root cl_m1) = true /\ r_later (m_root cl_m1) = true /\ r_fault (m_root cl_m1) = false /\
+  pending_ok cl_m1 = true /\
+  t_grid (m_term cl_m1) (1, 1) = m_app cl_m1 2 1 1 /\
+  t_grid (m_term cl_m1) (2, 2) = m_app cl_m1 0 2 2 /\
+  map fst (m_xlog cl_m2) = [2; 0] /\
+  r_damage (m_root cl_m2) = [] /\ r_nexp (m_root cl_m2) = false /\ r_fault (m_root cl_m2) = false /\
+  pending_ok cl_m2 = true /\ screen_ok cl_m2 = true.
+Proof. exact (@WinReExample.re_close_nonvacuous). Qed.
 
 Example C01_reentrant_nonvacuous :
   (* after the first flush: damage pending (exactly window 2's area), the flags raised, every
